@@ -15,7 +15,9 @@ def gen_plans(g, rng, n):
     plans = []
     while len(plans) < n:
         c = rng.random()
-        if c < 0.15:
+        if c < 0.08:
+            p = g.single_member_multi_key_plan()
+        elif c < 0.15:
             p = g.inherent()
         elif c < 0.3:
             p = g.trait_args_plan()
@@ -56,6 +58,7 @@ def run(tier, seed, replay=None):
         # a proof obligation over the regenerated facts is broken: look for an input on which two processes differ
         n, k = n * 2, max(k, 8)
     plans = gen_plans(g, rng, n)
+    plans += [g.single_member_multi_key_plan() for _ in range(2 if tier == "quick" else 30)]
     if rep.broken:
         plans += [big_plan(g, rng) for _ in range(10)]
     # (i) separate rustc processes, different environments
